@@ -752,7 +752,9 @@ def run(ctx):
                    f"counts (exact) == model of the Cython kernel (exact) == nsi_betweenness / "
                    f"nsi_interregional_betweenness / nsi_cross_betweenness, on graphs, split "
                    f"copies, the model's split and double split; igraph distances == model BFS "
-                   f"({nbetw} requests)", "correspondence", not bad_betw, "\n".join(bad_betw[:6]))
+                   f"(definition == kernel model is a theorem since round 5b, "
+                   f"nsi_betweenness_kernel_eq_def: kept as a correspondence, no longer a "
+                   f"hypothesis of any theorem) ({nbetw} requests)", "correspondence", not bad_betw, "\n".join(bad_betw[:6]))
     ctx.obligation(f"correspondence: nsi_newman_betweenness (both add_local_ends), "
                    f"nsi_arenas_betweenness (4 argument patterns), nsi_laplacian, nsi_spreading "
                    f"(series of exact moments, default and given alpha), histogram bin layout -- "
